@@ -11,6 +11,7 @@ import (
 	"strings"
 
 	"github.com/graphql-go/graphql"
+	"github.com/graphql-go/graphql/language/ast"
 	"github.com/graphql-go/graphql/language/parser"
 	"github.com/graphql-go/graphql/vsched"
 
@@ -28,10 +29,19 @@ type scenario struct {
 	opened  int  // gates the releaser opens (0..n)
 	cancel  int  // 0 none, 1 Canceled, 2 DeadlineExceeded
 	plan    bool // PlanQuery + ExecutePlan instead of Do
+	coerce  bool // a variable of a custom scalar whose ParseValue waits for the first gate
 }
 
 func (s scenario) String() string {
-	return fmt.Sprintf("resolvers=%d observe_ctx=%v gates_opened=%d cancel=%d entry_plan=%v", s.n, s.observe, s.opened, s.cancel, s.plan)
+	return fmt.Sprintf("resolvers=%d observe_ctx=%v gates_opened=%d cancel=%d entry_plan=%v gated_variable_coercion=%v", s.n, s.observe, s.opened, s.cancel, s.plan, s.coerce)
+}
+
+// gates: one per resolver plus one for the variable coercion.
+func (s scenario) gates() int {
+	if s.coerce {
+		return s.n + 1
+	}
+	return s.n
 }
 
 type env struct {
@@ -46,33 +56,54 @@ func buildSchema(e *env, sc scenario) (graphql.Schema, error) {
 	fields := graphql.Fields{}
 	for i := 0; i < sc.n; i++ {
 		i := i
+		gate := e.gates[i]
+		if sc.coerce {
+			gate = e.gates[i+1] // gate 0 belongs to the variable coercion
+		}
 		name := fmt.Sprintf("g%d", i+1)
 		fields[name] = &graphql.Field{Type: graphql.String, Resolve: func(p graphql.ResolveParams) (interface{}, error) {
 			if !sc.observe {
-				vsched.Recv("gate", e.gates[i])
+				vsched.Recv("gate", gate)
 				return fmt.Sprintf("v%d", i+1), nil
 			}
 			done := p.Context.Done()
-			k, t := vsched.Select("gate-or-ctx", false, vsched.CaseRecv(done), vsched.CaseRecv(e.gates[i]))
+			k, t := vsched.Select("gate-or-ctx", false, vsched.CaseRecv(done), vsched.CaseRecv(gate))
 			switch k {
 			case 0:
 				<-done
 				vsched.AfterOp(t)
 				return nil, p.Context.Err()
 			default:
-				<-e.gates[i]
+				<-gate
 				vsched.AfterOp(t)
 				return fmt.Sprintf("v%d", i+1), nil
 			}
 		}}
 	}
+	if sc.coerce {
+		// the variable's coercion is user code too: it waits for gate 0
+		gated := graphql.NewScalar(graphql.ScalarConfig{
+			Name:      "Gated",
+			Serialize: func(v interface{}) interface{} { return v },
+			ParseValue: func(v interface{}) interface{} {
+				vsched.Recv("coercion gate", e.gates[0])
+				return v
+			},
+			ParseLiteral: func(v ast.Value) interface{} { return v.GetValue() },
+		})
+		fields["h"] = &graphql.Field{Type: graphql.String, Args: graphql.FieldConfigArgument{"c": &graphql.ArgumentConfig{Type: gated}},
+			Resolve: func(p graphql.ResolveParams) (interface{}, error) { return fmt.Sprint("h", p.Args["c"]), nil }}
+	}
 	return graphql.NewSchema(graphql.SchemaConfig{Query: graphql.NewObject(graphql.ObjectConfig{Name: "Query", Fields: fields})})
 }
 
-func query(n int) string {
+func query(sc scenario) string {
 	var fs []string
-	for i := 0; i < n; i++ {
+	for i := 0; i < sc.n; i++ {
 		fs = append(fs, fmt.Sprintf("g%d", i+1))
+	}
+	if sc.coerce {
+		return "query($c: Gated) {" + strings.Join(append(fs, "h(c: $c)"), " ") + "}"
 	}
 	return "{" + strings.Join(fs, " ") + "}"
 }
@@ -97,7 +128,11 @@ func execute(x *explore.X, sc scenario, horizon int) outcome {
 	if err != nil {
 		return outcome{bad: "HARNESS schema: " + err.Error()}
 	}
-	q := query(sc.n)
+	q := query(sc)
+	var vars map[string]interface{}
+	if sc.coerce {
+		vars = map[string]interface{}{"c": "x"}
+	}
 	vsched.Begin(sx.Chooser(x), horizon)
 	caller := vsched.Go("caller", func() {
 		defer func() {
@@ -112,9 +147,9 @@ func execute(x *explore.X, sc scenario, horizon int) outcome {
 				e.pan = perr
 				return
 			}
-			e.res = graphql.ExecutePlan(pl, graphql.ExecuteParams{Schema: schema, Context: e.ctx})
+			e.res = graphql.ExecutePlan(pl, graphql.ExecuteParams{Schema: schema, Context: e.ctx, Args: vars})
 		} else {
-			e.res = graphql.Do(graphql.Params{Schema: schema, RequestString: q, Context: e.ctx})
+			e.res = graphql.Do(graphql.Params{Schema: schema, RequestString: q, Context: e.ctx, VariableValues: vars})
 		}
 		e.done = true
 	})
@@ -154,7 +189,7 @@ func execute(x *explore.X, sc scenario, horizon int) outcome {
 		out.bad = fmt.Sprintf("panic escaped the entry point: %v", e.pan)
 	}
 	cancelled := sc.cancel > 0 // the canceller is always eventually enabled, so by End it has fired
-	allOpen := sc.opened == sc.n
+	allOpen := sc.opened == sc.gates()
 	if !callerFinished {
 		if (cancelled || allOpen) && out.bad == "" {
 			out.bad = fmt.Sprintf("the call never returned although cancelled=%v all_gates_open=%v (parked: %v)", cancelled, allOpen, parked)
@@ -219,7 +254,17 @@ func judge(sc scenario, r *graphql.Result, cancelled bool) string {
 			return fmt.Sprintf("field %s has unexpected value %v", k, v)
 		}
 	}
-	if len(data) != sc.n {
+	want := sc.n
+	if sc.coerce {
+		want++
+		if data["h"] != "hx" {
+			return fmt.Sprintf("field h is %v, not the value computed from the coerced variable", data["h"])
+		}
+		if errAt["h"] != 0 {
+			return "error reported for successfully resolved field h"
+		}
+	}
+	if len(data) != want {
 		return "data has unexpected keys"
 	}
 	return ""
@@ -239,8 +284,18 @@ func scenarios(thorough bool) []scenario {
 						if cancel == 2 && (plan || observe) {
 							continue // the deadline flavour differs only in the error text
 						}
-						out = append(out, scenario{n, observe, opened, cancel, plan})
+						out = append(out, scenario{n, observe, opened, cancel, plan, false})
 					}
+				}
+			}
+		}
+	}
+	// cancellation during variable coercion: 0-1 gated resolvers after a gated coercion
+	for _, n := range []int{0, 1} {
+		for opened := 0; opened <= n+1; opened++ {
+			for cancel := 0; cancel <= 1; cancel++ {
+				for _, plan := range []bool{false, true} {
+					out = append(out, scenario{n, false, opened, cancel, plan, true})
 				}
 			}
 		}
